@@ -92,6 +92,31 @@ pub fn adjust(cfg: &mut SwarmCfg, tier: &str, r: &mut Prng) {
             setw(cfg, "write", 8);
             setw(cfg, "ext_commit", 4);
         }
+        "C13" => {
+            cfg.oracles = sv(&["agreement", "kdf-model", "record-crypto"]);
+            cfg.faults = sv(&["N-REORD", "N-RACE"]);
+            cfg.knobs.push(("psk".into(), 1));
+            setw(cfg, "commit", 16);
+            setw(cfg, "propose", 10);
+            setw(cfg, "send_app", 12);
+            setw(cfg, "ext_commit", 2);
+            setw(cfg, "crash", 0);
+        }
+        "C05" => {
+            cfg.oracles = sv(&["agreement", "nonce-unique", "record-crypto", "state-unchanged", "kdf-model"]);
+            cfg.faults = sv(&["N-DUP", "N-REORD", "N-DROP", "N-GAP", "P-CRASH", "crash-unwritten-sends"]);
+            cfg.encrypt_handshake = r.chance(2, 3);
+            cfg.n_parties = cfg.n_parties.clamp(2, 6);
+            setw(cfg, "send_app", 40);
+            setw(cfg, "deliver", 40);
+            setw(cfg, "propose", 8);
+            setw(cfg, "commit", 6);
+            setw(cfg, "write", 8);
+            setw(cfg, "crash", 2);
+            setw(cfg, "reload", 10);
+            setw(cfg, "burst", if r.chance(1, 3) { 3 } else { 0 });
+            cfg.knobs.push(("dup-heavy".into(), 1));
+        }
         "C06" => {
             cfg.oracles = sv(&["agreement", "restore"]);
             cfg.faults = sv(&["P-CRASH", "N-REORD", "N-DUP", "N-RACE", "N-STALE", "crash-with-pending"]);
@@ -144,6 +169,9 @@ pub fn extra_kinds(w: &World, kinds: &mut Vec<(&'static str, u32)>) {
     }
     if w.cfg.weight("byz") > 0 && w.live_members(g).len() >= 2 {
         kinds.push(("byz", w.cfg.weight("byz")));
+    }
+    if w.cfg.weight("burst") > 0 && !w.live_members(g).is_empty() && w.ext.bursts < 2 {
+        kinds.push(("burst", w.cfg.weight("burst")));
     }
     if w.cfg.weight("apply_detached") > 0
         && w
@@ -242,6 +270,17 @@ pub fn extra_action(w: &mut World, kind: &str) -> Option<Action> {
                 g,
                 msg: target,
                 m,
+            })
+        }
+        "burst" => {
+            let live = w.live_members(g);
+            let p = *w.prng.pick(&live);
+            w.ext.bursts += 1;
+            Some(Action::Special {
+                kind: "burst".into(),
+                a: p as u64,
+                b: *w.prng.pick(&[1u64, 5, 40, 1023, 1024, 1025, 1030]),
+                c: 0,
             })
         }
         "apply_detached" => {
